@@ -50,7 +50,22 @@ def close_all():
         if not pw._db.is_closed():
             pw._db.close()
     except Exception:
-        pass
+        # e.g. "Attempting to close database while transaction is open" (a transaction left
+        # open by the code under test): drop the connection the hard way so that the next
+        # store starts clean -- the harness must never die on the implementation's state
+        try:
+            conn = pw._db.connection()
+            try:
+                conn.rollback()
+            except Exception:
+                pass
+            conn.close()
+        except Exception:
+            pass
+        try:
+            pw._db._state.reset()
+        except Exception:
+            pass
 
 
 def _rm(path):
